@@ -115,6 +115,8 @@ Definition print_account (i : option iter) : str :=
   | Some it =>
       match iter_rows_now it with
       | Some r => lit "closes=" ++ itoa_nat (r_driver_closes r) ++ lit ",closed=" ++ (if r_closed r then lit "1" else lit "0")
+                  (* database/sql: the result set holds its connection until it is closed *)
+                  ++ lit ",inuse=" ++ (if r_closed r then lit "0" else lit "1")
       | None => lit "norows"
       end
   end.
